@@ -1,6 +1,7 @@
 import EntraitProofs.FnMode
 import EntraitProofs.Split
 import EntraitProofs.Examples
+import EntraitProofs.C13
 /-
   C08 — module mode: the trait's methods are exactly the module's non-private functions.
 
@@ -69,7 +70,7 @@ theorem T_C08 (v : Variant) (attr : Toks) (item : Item) (out : Out)
         List.map_map, Function.comp_def, beq_self_eq_true, Bool.true_and, Bool.and_true]
       have hlen : fns.length = (items.filterMap BodyItem.fn?).length := by
         simpa using congrArg List.length hid
-      simp [genTraitDef, traitVisibility, useItem, hlen]
+      simp [genTraitDef, traitVisibility, useItem, hlen, C13.moduleVis_eq]
 
 /-! ### which entries are functions -/
 
